@@ -68,7 +68,8 @@ class LabeledUnicast(NLRI):
                 nlri_byte_len = nlri_bit_len // 8 + 1
 
             offset = nlri_byte_len + 1
-            label = cls.parse_mpls_label_stack(nlri_data[1:])
+            # the label stack lies inside this route, do not scan the routes that follow
+            label = cls.parse_mpls_label_stack(nlri_data[1:offset])
             label_byte_len = len(label) * 3
             prefix_byte_len = nlri_byte_len - label_byte_len
             prefix_mask = nlri_bit_len - label_byte_len * 8
